@@ -411,3 +411,174 @@ Proof.
   destruct t as [|k v|lbl lf l r]; [destruct Hin| |]; apply G; auto; discriminate.
 Qed.
 
+
+(* ------------------------------------------------------------------ *)
+(* every run of the parallel chunker is non-empty                       *)
+(* ------------------------------------------------------------------ *)
+Section NonEmpty.
+  Variable H : bytes -> bytes.
+  Variable t : tree.
+  Hypothesis Wt : wf t.
+
+  Definition live (ts : list task) : Prop :=
+    Forall (fun tk => sub (tsub tk) t /\ rem_entries tk <> []) ts.
+
+  Lemma split_live tk : sub (tsub tk) t -> rem_entries tk <> [] -> live (split tk).
+  Proof.
+    intros Hs Hne. pose proof (split_ok t tk Hs) as Hok. unfold live, tasks_ok in *.
+    rewrite Forall_forall in *. intros tk' Hin. split; [now apply Hok|].
+    revert Hin. unfold split. destruct (tsub tk) as [|k v|lbl lf l r] eqn:Et;
+      try (intros [<-|[]]; assumption).
+    assert (sub l t) as Hl by (eapply sub_trans; [|exact Hs]; apply sub_l, sub_refl).
+    assert (sub r t) as Hr by (eapply sub_trans; [|exact Hs]; apply sub_r, sub_refl).
+    assert (rem_entries tk = skipn (tdone tk) (lf_contents lf ++ contents l ++ contents r)) as Er
+      by (unfold rem_entries; rewrite Et; reflexivity).
+    assert (forall cs, (forall c, In c cs -> sub c t) -> forall a tk0, In tk0 (child_tasks a cs) -> rem_entries tk0 <> []) as Hct.
+    { intros cs Hcs a tk0 Hin0. unfold child_tasks in Hin0. apply in_flat_map in Hin0 as (c & Hc & Hin0).
+      destruct c; cbn in Hin0; [tauto| |]; destruct Hin0 as [<-|[]]; unfold rem_entries; cbn [tdone tsub skipn];
+        apply (sub_nonempty H t Wt); auto; discriminate. }
+    destruct (Nat.leb_spec (tdone tk) (length (lf_contents lf))).
+    { destruct l, r; try (apply Hct; intros c [<-|[<-|[]]]; assumption). intros [<-|[]]. assumption. }
+    destruct (Nat.ltb_spec (tdone tk) (length (lf_contents lf) + length (contents l))).
+    { rewrite in_app_iff. intros [Hin|[<-|[]]]; [revert Hin; apply Hct; intros c [<-|[]]; assumption|].
+      intros E. apply (f_equal (@length entry)) in E. unfold rem_entries in E. cbn [tdone tsub] in E.
+      rewrite skipn_length in E. cbn [length] in E. elia. }
+    destruct (Nat.eqb_spec (tdone tk) (length (lf_contents lf) + length (contents l))).
+    { intros [<-|[]]. assumption. }
+    intros [<-|[]]. intros E. apply Hne. rewrite Er.
+    rewrite skipn_app, (skipn_all2 (lf_contents lf)) by elia.
+    rewrite skipn_app, (skipn_all2 (contents l)) by elia. exact E.
+  Qed.
+
+  Lemma split_pass_live threads tasks : forall acc,
+    live acc -> live tasks -> live (fst (split_pass threads acc tasks)).
+  Proof.
+    induction tasks as [|tk rest IH]; intros acc Ha Ht; cbn [split_pass]; [assumption|].
+    destruct (threads <=? _); cbn [fst]; [apply Forall_app; auto|].
+    inversion Ht as [|? ? [Hs Hn] Hrest]; subst. apply IH; [|assumption].
+    apply Forall_app. split; [assumption|now apply split_live].
+  Qed.
+
+  Lemma split_tasks_live threads n : forall ts, live ts -> live (split_tasks threads n ts).
+  Proof.
+    induction n as [|n IH]; intros ts Hl; cbn [split_tasks]; [assumption|].
+    pose proof (split_pass_live threads ts [] (Forall_nil _) Hl) as P.
+    destruct (split_pass threads [] ts) as [ts2 stop]. cbn [fst] in P. destruct stop; auto.
+  Qed.
+
+  Lemma par_rounds_nonempty size threads fuel : forall ts,
+    live ts -> Forall (fun r => r <> []) (fst (par_rounds fuel size threads ts)).
+  Proof.
+    induction fuel as [|fuel IH]; intros ts Hl; cbn [par_rounds]; [constructor|].
+    destruct ts as [|tk0 rest] eqn:Ets; [constructor|]. rewrite <- Ets in *. clear Ets tk0 rest.
+    pose proof (split_tasks_live threads SPLIT_ITERS ts Hl) as L2.
+    set (ts2 := split_tasks threads SPLIT_ITERS ts) in *.
+    assert (live (filter unfinished (map (advance size) ts2))) as L3.
+    { unfold live in *. rewrite Forall_forall in *. intros tk Hin. apply filter_In in Hin as [Hin Hu].
+      apply in_map_iff in Hin as (tk0 & <- & Hin). split; [apply (L2 _ Hin)|now apply unfinished_rem]. }
+    specialize (IH _ L3).
+    destruct (par_rounds fuel size threads (filter unfinished (map (advance size) ts2))) as [more lft].
+    cbn [fst] in *. apply Forall_app. split; [|assumption].
+    unfold live in L2. rewrite Forall_forall in *. intros run Hin.
+    apply in_map_iff in Hin as (tk & <- & Hin). apply task_run_nonempty. now apply L2.
+  Qed.
+
+  Theorem par_runs_nonempty size threads :
+    t <> Nil -> Forall (fun r => r <> []) (fst (par_runs size threads t)).
+  Proof.
+    intros Hn. unfold par_runs. destruct t as [|k v|lbl lf l r] eqn:Et; [congruence| |];
+      rewrite <- Et in *; apply par_rounds_nonempty; constructor; try constructor;
+      try apply sub_refl; unfold rem_entries; cbn [tdone tsub skipn];
+      apply (sub_nonempty H t Wt); try apply sub_refl; assumption.
+  Qed.
+End NonEmpty.
+
+(* ------------------------------------------------------------------ *)
+(* the order in which the goroutines of one round run is irrelevant     *)
+(* ------------------------------------------------------------------ *)
+Lemma upd_length {A} (x : A) l : forall i, length (upd i x l) = length l.
+Proof. induction l as [|y l IH]; intros [|i]; cbn [upd length]; auto. Qed.
+
+Lemma nth_error_upd_same {A} (x : A) l : forall i, i < length l -> nth_error (upd i x l) i = Some x.
+Proof.
+  induction l as [|y l IH]; intros [|i] Hi; cbn [upd nth_error length] in *; try lia; auto.
+  apply IH. lia.
+Qed.
+
+Lemma nth_error_upd_other {A} (x : A) l : forall i j, i <> j -> nth_error (upd i x l) j = nth_error l j.
+Proof.
+  induction l as [|y l IH]; intros [|i] [|j] Hne; cbn [upd nth_error]; auto; try congruence.
+Qed.
+
+Lemma nth_error_ext {A} (l1 : list A) : forall l2,
+  (forall i, nth_error l1 i = nth_error l2 i) -> l1 = l2.
+Proof.
+  induction l1 as [|x l1 IH]; intros [|y l2] E; auto.
+  - specialize (E 0). discriminate.
+  - specialize (E 0). discriminate.
+  - pose proof (E 0) as E0. cbn in E0. injection E0 as <-. f_equal. apply IH. intros i. apply (E (S i)).
+Qed.
+
+Definition sel {A} (sched : list nat) (j : nat) (a b : A) : A :=
+  if existsb (Nat.eqb j) sched then a else b.
+
+Lemma round_sched_pointwise size sched : forall a b,
+  NoDup sched -> length b = length a ->
+  let st := fold_left (run_slot size) sched (a, b) in
+  length (fst st) = length a /\ length (snd st) = length a /\
+  forall j, nth_error (fst st) j = sel sched j (option_map (advance size) (nth_error a j)) (nth_error a j) /\
+            nth_error (snd st) j = sel sched j (option_map (task_run size) (nth_error a j)) (nth_error b j).
+Proof.
+  induction sched as [|i sched IH]; intros a b Hnd Hlen; cbn [fold_left].
+  - cbn. auto.
+  - inversion Hnd as [|? ? Hni Hnd']; subst.
+    destruct (nth_error a i) as [tk|] eqn:Ei.
+    + replace (run_slot size (a, b) i) with (upd i (advance size tk) a, upd i (task_run size tk) b)
+        by (unfold run_slot; cbn [fst snd]; rewrite Ei; reflexivity).
+      assert (i < length a) as Hi by (apply nth_error_Some; congruence).
+      specialize (IH (upd i (advance size tk) a) (upd i (task_run size tk) b) Hnd').
+      rewrite !upd_length in IH. specialize (IH Hlen). cbn zeta in *. destruct IH as (L1 & L2 & IH).
+      split; [assumption|]. split; [assumption|]. intros j. destruct (IH j) as [Ha Hb].
+      unfold sel in *. cbn [existsb]. destruct (Nat.eqb_spec j i) as [->|Hne].
+      * assert (existsb (Nat.eqb i) sched = false) as Hf.
+        { destruct (existsb (Nat.eqb i) sched) eqn:E; [|reflexivity]. exfalso. apply Hni.
+          apply existsb_exists in E as (x & Hx & Hxe). apply Nat.eqb_eq in Hxe. now subst. }
+        rewrite Hf in Ha, Hb. cbn [orb]. rewrite Ha, Hb, Ei.
+        rewrite !nth_error_upd_same by lia. auto.
+      * cbn [orb]. rewrite Ha, Hb. rewrite !nth_error_upd_other by auto. auto.
+    + replace (run_slot size (a, b) i) with (a, b)
+        by (unfold run_slot; cbn [fst snd]; rewrite Ei; reflexivity).
+      specialize (IH a b Hnd' Hlen). cbn zeta in *. destruct IH as (L1 & L2 & IH).
+      split; [assumption|]. split; [assumption|]. intros j. destruct (IH j) as [Ha Hb].
+      unfold sel in *. cbn [existsb]. destruct (Nat.eqb_spec j i) as [->|Hne]; cbn [orb]; [|auto].
+      rewrite Ha, Hb, Ei. cbn [option_map].
+      assert (nth_error b i = None) as Hbi by (apply nth_error_None; apply nth_error_None in Ei; lia).
+      rewrite Hbi. destruct (existsb (Nat.eqb i) sched); auto.
+Qed.
+
+(* whatever order the tasks of a round run in (any permutation of the slots),
+   the chunks and the successor tasks are the same, slot by slot *)
+Theorem round_order_irrelevant_l size sched ts :
+  Permutation sched (seq 0 (length ts)) ->
+  round_sched size sched ts = (map (advance size) ts, map (task_run size) ts).
+Proof.
+  intros Hp. unfold round_sched.
+  assert (NoDup sched) as Hnd by (eapply Permutation_NoDup; [apply Permutation_sym; exact Hp|apply seq_NoDup]).
+  destruct (round_sched_pointwise size sched ts (map (fun _ => []) ts) Hnd) as (L1 & L2 & Hpt);
+    [now rewrite map_length|].
+  assert (forall j, existsb (Nat.eqb j) sched = (j <? length ts)) as Hin.
+  { intros j. destruct (Nat.ltb_spec j (length ts)) as [Hj|Hj].
+    - apply existsb_exists. exists j. split; [|apply Nat.eqb_refl].
+      eapply Permutation_in; [apply Permutation_sym; exact Hp|]. apply in_seq. lia.
+    - destruct (existsb (Nat.eqb j) sched) eqn:E; [|reflexivity].
+      apply existsb_exists in E as (x & Hx & Hxe). apply Nat.eqb_eq in Hxe. subst x.
+      eapply Permutation_in in Hx; [|exact Hp]. apply in_seq in Hx. lia. }
+  destruct (fold_left (run_slot size) sched (ts, map (fun _ => []) ts)) as [a' b'].
+  cbn [fst snd] in *. f_equal; apply nth_error_ext; intros j; destruct (Hpt j) as [Ha Hb];
+    unfold sel in *; rewrite Hin in *; rewrite nth_error_map.
+  - rewrite Ha. destruct (Nat.ltb_spec j (length ts)); [reflexivity|].
+    assert (nth_error ts j = None) as -> by (now apply nth_error_None). reflexivity.
+  - rewrite Hb. destruct (Nat.ltb_spec j (length ts)); [reflexivity|].
+    assert (nth_error ts j = None) as -> by (now apply nth_error_None).
+    rewrite nth_error_map. assert (nth_error ts j = None) as -> by (now apply nth_error_None). reflexivity.
+Qed.
